@@ -369,6 +369,9 @@ class SigmaRuleBase:
         if not collect_errors and errors:
             raise errors[0]
 
+        # The parsed document can be shared between rules (collection actions "global" and
+        # "repeat", dict passed multiple times). The rule gets its own lists, because they are
+        # changed in place later, e.g. the field list by processing pipeline transformations.
         return (
             {
                 "title": rule_title,
@@ -379,13 +382,15 @@ class SigmaRuleBase:
                 "level": rule_level,
                 "status": rule_status,
                 "description": rule_description,
-                "references": rule_references,
+                "references": list(rule_references) if rule_references is not None else None,
                 "tags": rule_tags,
                 "author": rule_author,
                 "date": rule_date,
                 "modified": rule_modified,
-                "fields": rule_fields,
-                "falsepositives": rule_falsepositives,
+                "fields": list(rule_fields) if rule_fields is not None else None,
+                "falsepositives": (
+                    list(rule_falsepositives) if rule_falsepositives is not None else None
+                ),
                 "scope": rule_scope,
                 "license": rule_license,
                 "source": source,
